@@ -18,6 +18,7 @@ import (
 	"time"
 
 	vrt "github.com/hashicorp/nodeenrollment/zz_verif/vrt"
+	"verif/checks/selftest"
 	"verif/engine"
 )
 
@@ -275,6 +276,15 @@ func run(c *engine.Ctx, r *engine.Report) {
 		return
 	}
 	r.Need("explored", "scenario-with-several-outcomes", "outcome:some-accepted", "outcome:some-closed")
+	if c.Shard == 0 {
+		// trusted base: the shims must reproduce the documented outcome sets of the litmus programs
+		if msg, n := selftest.Run(); msg != "" {
+			r.InfraError("shim self-test failed: " + msg)
+			return
+		} else {
+			r.Extra["shim_selftest_schedules"] = float64(n)
+		}
+	}
 	scs := scenarios(c)
 	bounds := []int{2}
 	if c.Thorough() {
@@ -369,6 +379,9 @@ func raceRun(c *engine.Ctx, r *engine.Report) {
 				for w := 0; msg != "" && strings.Contains(msg, "stranded") && w < 2000; w++ {
 					time.Sleep(5 * time.Millisecond)
 					msg = judge(sc, o)
+				}
+				if msg == "" {
+					r.Outcome(fmt.Sprintf("free:{%s} %s", sc, outcome(sc, o)))
 				}
 				if msg != "" {
 					r.Violate("race-run:"+strings.Fields(msg)[0], fmt.Sprintf("free-running scenario {%s}: %s", sc, msg), replayData{Scenario: sc})
